@@ -22,12 +22,14 @@ static std::map<uintptr_t, Region> g_regions;     // live regions by base
 static long long g_next_rid = 1;
 struct Loc { long long r, o; };
 static Loc locate(const void *p) {
+	// <<0, 0>> is the null pointer; a non-null address outside every mapped region is <<-1, 0>> (it must not look like null)
 	uintptr_t a = (uintptr_t)p;
+	if(!a) return {0, 0};
 	auto it = g_regions.upper_bound(a);
-	if(it == g_regions.begin()) return {0, 0};
+	if(it == g_regions.begin()) return {-1, 0};
 	--it;
 	if(a >= it->second.base && a < it->second.base + it->second.len) return {it->second.rid, (long long)(a - it->second.base)};
-	return {0, 0};
+	return {-1, 0};
 }
 
 // fault plan: which map() calls fail. Scripted: the controller arms `fail_next[t]`; random: by rate.
@@ -86,9 +88,9 @@ struct VPolicy;
 	static constexpr int num_buckets = NumBuckets;
 
 #define POISON_HOOKS \
-	void poison(void *p, size_t n) { Loc l = locate(p); Ev("Poison").i("t", tid()).i("rid", l.r).i("off", l.o).i("n", (long long)n).emit(); if(this->asan_forward && l.r) ASAN_POISON_MEMORY_REGION(p, n); } \
-	void unpoison(void *p, size_t n) { Loc l = locate(p); Ev("Unpoison").i("t", tid()).i("rid", l.r).i("off", l.o).i("n", (long long)n).emit(); if(this->asan_forward && l.r) ASAN_UNPOISON_MEMORY_REGION(p, n); } \
-	void unpoison_expand(void *p, size_t n) { Loc l = locate(p); Ev("UnpoisonExpand").i("t", tid()).i("rid", l.r).i("off", l.o).i("n", (long long)n).emit(); if(this->asan_forward && l.r) ASAN_UNPOISON_MEMORY_REGION(p, n); }
+	void poison(void *p, size_t n) { Loc l = locate(p); Ev("Poison").i("t", tid()).i("rid", l.r).i("off", l.o).i("n", (long long)n).emit(); if(this->asan_forward && l.r > 0) ASAN_POISON_MEMORY_REGION(p, n); } \
+	void unpoison(void *p, size_t n) { Loc l = locate(p); Ev("Unpoison").i("t", tid()).i("rid", l.r).i("off", l.o).i("n", (long long)n).emit(); if(this->asan_forward && l.r > 0) ASAN_UNPOISON_MEMORY_REGION(p, n); } \
+	void unpoison_expand(void *p, size_t n) { Loc l = locate(p); Ev("UnpoisonExpand").i("t", tid()).i("rid", l.r).i("off", l.o).i("n", (long long)n).emit(); if(this->asan_forward && l.r > 0) ASAN_UNPOISON_MEMORY_REGION(p, n); }
 
 template<size_t PageSize, size_t SlabSize, size_t SbSize, int NumBuckets>
 struct VPolicy<PageSize, SlabSize, SbSize, NumBuckets, true, true> : PolicyBase<true> {
